@@ -71,7 +71,7 @@ func runC09(c *core.Ctx) {
 		var back *scanner
 		rtExact := b <= 32 && !f32
 		rtStep := f32 && b <= 16
-		if rtExact || rtStep {
+		if (rtExact || rtStep) && inv != nil {
 			back = newScanner(inv)
 		}
 		strict := b <= 32 && !f32
